@@ -170,6 +170,12 @@ func parseH265VpsSpsPps(s string, video *codec.VideoMeta) {
 		advance, token, continueScan = scan.Semicolon.Scan(advance)
 		name, value, ok := scan.EqualPair.Scan(token)
 		if ok {
+			switch name {
+			case "sprop-vps", "sprop-sps", "sprop-pps":
+			default:
+				// RFC 7798 7.1: the other parameters (profile-id, tx-mode, sprop-max-don-diff ...) carry no parameter set
+				continue
+			}
 			var ps []byte
 			var err error
 			if ps, err = base64.StdEncoding.DecodeString(value); err != nil {
